@@ -195,6 +195,10 @@ func (s *Sched) Stop(why string) {
 }
 func (s *Sched) StopWhy() string { return s.stopWhy }
 
+// Resume clears the stop flag so that Loop can be entered again (a second
+// phase with newly spawned tasks).
+func (s *Sched) Resume() { s.stop, s.stopWhy, s.idle = false, "", 0 }
+
 // Current returns the task on whose goroutine the caller runs (nil if the
 // goroutine is not a task).
 func (s *Sched) Current() *Task {
